@@ -1,6 +1,10 @@
 import Prism.Proofs.C11
+import Prism.Proofs.C11Fork
 
 #print axioms Prism.Race.C11_summary_ok
 #print axioms Prism.Race.C11_no_shared_writes_in_workers
 #print axioms Prism.Race.C11_guarded_reads_ordered
 #print axioms Prism.Race.C11_fastpath_race
+#print axioms Prism.ForkJoin.C11_forkjoin_all_work_before_return
+#print axioms Prism.ForkJoin.C11_add_inside_goroutine_returns_early
+#print axioms Prism.ForkJoin.C11_concurrency_surface
